@@ -60,6 +60,17 @@ SPECS["C13"] = dict(
         "Woodpile.Props.C13.sc_per_thread_monotone",
         "Woodpile.Props.C13.sc_published_monotone",
         "Woodpile.Props.C13.sc_stale_update_ignored",
+        "Woodpile.Props.C13.ra_invariant",
+        "Woodpile.Props.C13.ra_hist_is_accepted_updates",
+        "Woodpile.Props.C13.ra_snapshot_not_torn",
+        "Woodpile.Props.C13.ra_snapshot_in_history",
+        "Woodpile.Props.C13.ra_no_panic",
+        "Woodpile.Props.C13.ra_history_valid",
+        "Woodpile.Props.C13.ra_start_records_view",
+        "Woodpile.Props.C13.ra_recent",
+        "Woodpile.Props.C13.ra_per_thread_monotone",
+        "Woodpile.Props.C13.ra_published_monotone",
+        "Woodpile.Props.C13.ra_stale_update_ignored",
     ],
     families=[dict(name="abt", quick=1500, thorough=60000)],
     vtags=["C13"],
@@ -87,6 +98,10 @@ SPECS["C18"] = dict(
         "Woodpile.Props.C18.try_update_bounded",
         "Woodpile.Props.C18.sc_solo_snapshot_terminates",
         "Woodpile.Props.C18.sc_retry_only_on_publish",
+        "Woodpile.Props.C18.ra_only_update_lock_blocks",
+        "Woodpile.Props.C18.ra_try_update_nonblocking",
+        "Woodpile.Props.C18.ra_solo_snapshot_terminates",
+        "Woodpile.Props.C18.ra_retry_only_on_publish",
         "Woodpile.Props.C18.unlocked_inherits",
     ],
     families=[dict(name="abt", quick=1500, thorough=60000)],
